@@ -412,6 +412,7 @@ func main() {
 	}
 	notAfterStream(w, r, n)
 	kindStream(w, r, n)
+	extremeStream(w, r)
 	w.Close()
 	fmt.Printf("c18: wrote %d cases\n", w.Len())
 }
